@@ -532,6 +532,7 @@ def convert_parameters(self: Parameters) -> Json:
         "arg_kinds": [int(x.value) for x in self.arg_kinds],
         "arg_names": self.arg_names,
         "variables": [convert_type(tv) for tv in self.variables],
+        "is_ellipsis_args": self.is_ellipsis_args,
         "imprecise_arg_kinds": self.imprecise_arg_kinds,
     }
 
